@@ -30,6 +30,9 @@ def units(tier):
     us += func_units(M + ".ismsm", tier)
     us.append(lemma_unit("specseq.lemmas", ha.seq_lemmas))
     us.append(ground_unit("tables.helper_lists", ha.helper_list_lemma))
+    # 'whose epoch is the constellation's epoch field': the helper takes the field name from GNSSMAP - pinned against the standard
+    from spec import tablecheck
+    us.append(ground_unit("tables.msm", tablecheck.msm_table_lemmas))
     return us
 
 
@@ -53,6 +56,9 @@ def candidates(seed):
 
 
 def replay(o, seed):
+    if o["name"].startswith("tables.") and not o["name"].startswith("tables.helper_lists"):
+        from props import C10
+        return C10.replay(o, seed)
     if o["name"].startswith("tables."):
         return {"reproduced": True, "spec": "helper_lists", "input": {"obligation": o["name"]}, "expected": "helper lists cover the definition",
                 "observed": o.get("model"), "key": o["name"]}
